@@ -152,22 +152,30 @@ mod verif_c11 {
         }
     }
 
-    /// writer accepting data in nondeterministic pieces, possibly failing at one call
+    /// writer accepting data in nondeterministic pieces; from a nondeterministic call on it is FULL (accepts 0 bytes, as the stock
+    /// `&mut [u8]` / `Cursor` writers do) or fails with an error
     struct PartialWriter {
         buf: [u8; 8],
         len: usize,
         calls: usize,
         fail_at: usize,
+        full_at: usize,
+        refused: bool,
         flushed: u8,
     }
     impl std::io::Write for PartialWriter {
         fn write(&mut self, b: &[u8]) -> std::io::Result<usize> {
             let call = self.calls;
             self.calls += 1;
-            if call == self.fail_at {
+            if call >= self.fail_at {
+                self.refused = true;
                 return Err(std::io::Error::from(std::io::ErrorKind::Other));
             }
             if b.is_empty() {
+                return Ok(0);
+            }
+            if call >= self.full_at {
+                self.refused = true;
                 return Ok(0);
             }
             let n: usize = kani::any();
@@ -186,17 +194,21 @@ mod verif_c11 {
         }
     }
 
+    /// to_io over such a writer: Ok ==> the writer received exactly the plain encoding (and one flush);
+    /// a refusing / failing writer ==> Err, never a panic, never a silently truncated Ok
     #[kani::proof]
     #[kani::unwind(8)]
     fn to_io_partial_writes() {
-        let v: PTup = kani::any();
-        let mut plain = [0u8; 4];
+        let v: (u8, u16, u8) = kani::any();
+        let mut plain = [0u8; 5];
         let pl = to_slice(&v, &mut plain).unwrap().len();
         let fail_at: usize = kani::any();
-        let w = PartialWriter { buf: [0; 8], len: 0, calls: 0, fail_at, flushed: 0 };
+        let full_at: usize = kani::any();
+        let w = PartialWriter { buf: [0; 8], len: 0, calls: 0, fail_at, full_at, refused: false, flushed: 0 };
         match to_io(&v, w) {
             Ok(w) => {
-                assert!(w.len == pl, "SPEC: the writer must receive exactly the plain encoding");
+                kani::cover!(true);
+                assert!(w.len == pl, "SPEC: to_io returned Ok although the writer did not receive the whole encoding");
                 let i: usize = kani::any();
                 kani::assume(i < pl);
                 assert!(w.buf[i] == plain[i], "SPEC: the writer must receive exactly the plain encoding");
@@ -204,8 +216,39 @@ mod verif_c11 {
             }
             Err(e) => {
                 kani::cover!(true);
-                assert!(fail_at < 8, "SPEC: to_io failed although the writer never failed");
-                assert!(matches!(e, Error::SerializeBufferFull), "SPEC: a failing writer must surface as an error");
+                assert!(fail_at < 8 || full_at < 8, "SPEC: to_io failed although the writer never refused");
+                assert!(matches!(e, Error::SerializeBufferFull), "SPEC: a refusing writer must surface as an error");
+            }
+        }
+    }
+
+    /// flavour-level contract of the std WriteFlavor: try_push / try_extend hand exactly their bytes to the writer or fail
+    #[kani::proof]
+    #[kani::unwind(8)]
+    fn writeflavor_contract() {
+        use crate::ser_flavors::{io::WriteFlavor, Flavor};
+        let fail_at: usize = kani::any();
+        let full_at: usize = kani::any();
+        let w = PartialWriter { buf: [0; 8], len: 0, calls: 0, fail_at, full_at, refused: false, flushed: 0 };
+        let mut f = WriteFlavor::new(w);
+        let d: u8 = kani::any();
+        let blk: [u8; 3] = kani::any();
+        let bl: usize = kani::any();
+        kani::assume(bl <= 3);
+        let r1 = f.try_push(d);
+        let r2 = if r1.is_ok() { f.try_extend(&blk[..bl]) } else { Err(Error::SerializeBufferFull) };
+        let w = f.finalize();
+        kani::cover!(r1.is_err());
+        kani::cover!(r1.is_ok() && r2.is_err());
+        if let Ok(w) = w {
+            if r1.is_ok() {
+                assert!(w.len >= 1 && w.buf[0] == d, "SPEC: try_push returned Ok although the byte did not reach the writer");
+            }
+            if r1.is_ok() && r2.is_ok() {
+                assert!(w.len == 1 + bl, "SPEC: try_extend returned Ok although the block did not reach the writer");
+                let i: usize = kani::any();
+                kani::assume(i < bl);
+                assert!(w.buf[1 + i] == blk[i]);
             }
         }
     }
